@@ -137,7 +137,7 @@ def build(kind, ccalls):
     return a, outs
 
 
-def rebuild_by_constructor(a):
+def rebuild_by_constructor(a, bare=False):
     """The same automaton handed to the class constructor as a whole (states, alphabet, transition function, start,
     finals): the second public way of building one.  Returns a guard.call result."""
     from pyformlang.finite_automaton import TransitionFunction, NondeterministicTransitionFunction
@@ -151,6 +151,9 @@ def rebuild_by_constructor(a):
             start = next(iter(a.start_states), None)
         else:
             start = set(a.start_states)
+        if bare:        # the optional arguments `states` and `input_symbols` left out: what the transition function
+            # mentions belongs to the automaton all the same (states that occur nowhere else cannot be expressed)
+            return CLASSES[kind](transition_function=tf, start_state=start, final_states=set(a.final_states))
         return CLASSES[kind](states=set(a.states), input_symbols=set(a.symbols), transition_function=tf, start_state=start,
                              final_states=set(a.final_states))
     return guard.call(make)
